@@ -86,7 +86,8 @@ SPEC = dict(
                'floor of its acceleration search) is outside the property and not judged in any width',
     technique='randomised + branch-targeted request generation with kinematic runtime monitors (one-sided limits, scale- and '
               'conditioning-aware tolerances) under ASan+UBSan; float / long double: exact dyadic regime (==) + binary128 one-step and '
-              'closed-form oracles',
+              'closed-form oracles'
+              '; float / long double companion harness; C++ member vs C function twin execution on one object',
     # three configurations run side by side and share the workers evenly: 8 / 16 per configuration, as the double harness had before
     workers={'quick': 24, 'thorough': 48},
 )
